@@ -28,6 +28,15 @@ fn merge_rev(rep: &mut Report, parts: Vec<Report>) {
 /// depth-2 jobs are cut into this many chunks of the depth-1 mutant list (load balance only)
 const CHUNKS: usize = 8;
 
+/// merge per-job reports in ascending order of a size key, whatever order the jobs ran in
+fn merge_by_size<K: Ord + Copy>(rep: &mut Report, keys: Vec<K>, parts: Vec<Report>) {
+    let mut both: Vec<(K, Report)> = keys.into_iter().zip(parts).collect();
+    both.sort_by_key(|b| b.0);
+    for (_, p) in both {
+        rep.merge(p);
+    }
+}
+
 /// (n, subset mask, depth, chunk, chunks)
 fn subsets_jobs(max_n: usize, pairs_n: usize) -> Vec<(usize, u32, usize, usize, usize)> {
     let mut jobs = vec![];
@@ -60,7 +69,8 @@ fn part_stm(ctx: &Ctx, rep: &mut Report) {
     let sizes: Vec<usize> = (1..=n_honest).rev().collect();
     merge_rev(rep, par_map(&sizes, threads, |_, &n| stm::honest_sweep(n)));
     let jobs = subsets_jobs(n_single, n_pairs);
-    merge_rev(rep, par_map(&jobs, threads, |_, &(n, mask, depth, c, cs)| stm::mutation_sweep(n, mask, depth, c, cs)));
+    let keys = jobs.iter().map(|j| (j.0, j.1, j.3)).collect();
+    merge_by_size(rep, keys, par_map(&jobs, threads, |_, &(n, mask, depth, c, cs)| stm::mutation_sweep(n, mask, depth, c, cs)));
     let sizes: Vec<usize> = (1..=n_single).rev().collect();
     merge_rev(rep, par_map(&sizes, threads, |_, &n| stm::cross_commitment_sweep(n)));
     // designed forgeries: claims anywhere in the extended position range with the forger's best path
@@ -110,7 +120,8 @@ fn part_agg(ctx: &Ctx, rep: &mut Report) {
         }
     }
     jobs.sort_by_key(|j| std::cmp::Reverse(if j.0 <= agg_pairs_n { 1 } else { 0 }));
-    merge_rev(rep, par_map(&jobs, ctx.threads(), |_, &(n, mask)| agg::sweep_one(n, mask, if n <= agg_pairs_n { 2 } else { 1 })));
+    let keys = jobs.clone();
+    merge_by_size(rep, keys, par_map(&jobs, ctx.threads(), |_, &(n, mask)| agg::sweep_one(n, mask, if n <= agg_pairs_n { 2 } else { 1 })));
     rep.extra("stm_aggregate_bounds", json!({"registrations_up_to_parties": agg_n, "every_non_empty_signer_subset": true, "every_pair_of_mutations_up_to_parties": agg_pairs_n}));
 }
 
@@ -120,7 +131,8 @@ fn part_mk(ctx: &Ctx, rep: &mut Report) {
     let sizes: Vec<usize> = (1..=n_honest).rev().collect();
     merge_rev(rep, par_map(&sizes, threads, |_, &n| mk::honest_sweep(n)));
     let jobs = subsets_jobs(n_single, n_pairs);
-    merge_rev(rep, par_map(&jobs, threads, |_, &(n, mask, depth, c, cs)| mk::mutation_sweep(n, mask, depth, c, cs)));
+    let keys = jobs.iter().map(|j| (j.0, j.1, j.3)).collect();
+    merge_by_size(rep, keys, par_map(&jobs, threads, |_, &(n, mask, depth, c, cs)| mk::mutation_sweep(n, mask, depth, c, cs)));
     let sizes: Vec<usize> = (1..=n_frontier).rev().collect();
     merge_rev(rep, par_map(&sizes, threads, |_, &n| mk::frontier_sweep(n)));
     let sizes: Vec<usize> = (1..=n_single).rev().collect();
@@ -212,7 +224,8 @@ fn part_map(ctx: &Ctx, rep: &mut Report) {
     }
     jobs.sort_by_key(|j| std::cmp::Reverse(j.2));
     let mutated: std::collections::BTreeSet<(usize, u32)> = jobs.iter().map(|j| (j.0, j.1)).collect();
-    merge_rev(rep, par_map(&jobs, threads, |_, &(si, mask, depth, c, cs)| map::mutation_sweep(&structures[si], mask, depth, c, cs)));
+    let keys = jobs.iter().map(|j| (j.0, j.1, j.3)).collect();
+    merge_by_size(rep, keys, par_map(&jobs, threads, |_, &(si, mask, depth, c, cs)| map::mutation_sweep(&structures[si], mask, depth, c, cs)));
     rep.extra(
         "mkmap_bounds",
         json!({
